@@ -327,6 +327,19 @@ func checkC07(c *Ctx) {
 			if skip, _ := reach(w, nil, isInstr(ret), isTest, nil); skip {
 				okR = false
 			}
+			// the test must see the FINAL phantom: no store to the phantom address is reachable after it
+			eachInstr(w, func(in2 ssa.Instruction) {
+				if !isTest(in2) {
+					return
+				}
+				for _, st := range fieldStores(w, "lib.DecoyRegistration", "PhantomIp") {
+					if late, _ := reach(w, in2, isInstr(st), nil, nil); late {
+						okR = false
+						r.Bad("C07.4", "NewRegistrationC2SWrapper: the phantom address is replaced after the family test", st.Pos(), fnName(w),
+							"the IPv6-registrant / IPv4-phantom rejection is evaluated before the registrar's address override is applied: an override that carries an IPv4 address for an IPv6 registrant yields a registration the detector rejects (and one of a family the station may have disabled)")
+					}
+				}
+			})
 			r.Check(okR, "C07.4", "NewRegistrationC2SWrapper: no registration is returned for an IPv6 registrant with an IPv4 phantom", ret.Pos(), fnName(w), "test must-pass; its reject edge never reaches success",
 				"a registration whose phantom is IPv4 while the registrant is IPv6 is returned: the detector rejects its announcement (IPv4 phantom needs an IPv4 client) and the session never forwards")
 		})
